@@ -383,3 +383,38 @@ Proof.
   intros j. rewrite nth_upd by lia. rewrite C.
   destruct (Nat.eqb_spec j k), (Nat.leb_spec a j), (Nat.ltb_spec j k), (Nat.ltb_spec j (S k)); cbn [andb]; try lia; reflexivity.
 Qed.
+
+(* ------------------------------------------------------------------ the loop  for _, v := range l { bitmap.add(v) } *)
+Lemma set_bit_len set n : length (set_bit set n) = length set.
+Proof. unfold set_bit. apply upd_length. Qed.
+Lemma skipn_nth_cons (l : list N) : forall i, (i < length l)%nat -> skipn i l = nth i l 0%N :: skipn (S i) l.
+Proof.
+  induction l as [|a l IH]; intros [|i] H; cbn [length] in H; try lia; [reflexivity|].
+  cbn [skipn nth]. apply IH. lia.
+Qed.
+Lemma addall_while {St R} (pk : nat -> list N -> St) (c : St -> M bool) (b : St -> M (ctl St R)) (p : St -> M St) (l : list N) :
+  (forall i ws, (i <= length l)%nat ->
+     iter1 c b p (pk i ws) =
+     if (i <? length l)%nat
+     then (if (widx (nth i l 0%N) <? length ws)%nat then Ret (inl (pk (S i) (set_bit ws (nth i l 0%N)))) else Panic)
+     else Ret (inr (inl (pk i ws)))) ->
+  forall n i f ws, (i + n = length l)%nat -> (n < f)%nat -> Forall (fun y => (widx y < length ws)%nat) l ->
+  while f c b p (pk i ws) = Ret (inl (pk (length l) (fold_left set_bit (skipn i l) ws))).
+Proof.
+  intros H1. induction n as [|n IH]; intros i f ws Hi Hf Hall; (destruct f as [|f]; [lia|]); rewrite while_iter, H1 by lia.
+  - destruct (Nat.ltb_spec i (length l)); [lia|]. cbn [bind]. replace i with (length l) by lia. rewrite skipn_all. reflexivity.
+  - destruct (Nat.ltb_spec i (length l)); [|lia].
+    assert (Hw : (widx (nth i l 0%N) < length ws)%nat) by (rewrite Forall_forall in Hall; apply Hall, nth_In; lia).
+    destruct (Nat.ltb_spec (widx (nth i l 0%N)) (length ws)); [|lia]. cbn [bind].
+    rewrite IH; [|lia|lia|rewrite set_bit_len; exact Hall].
+    rewrite (skipn_nth_cons l i) by lia. reflexivity.
+Qed.
+
+Lemma Forall_firstn_N (P : N -> Prop) : forall n (l : list N), Forall P l -> Forall P (firstn n l).
+Proof. induction n as [|n IH]; intros [|a l] H; cbn [firstn]; auto. inversion H; subst. constructor; auto. Qed.
+Lemma Forall_skipn_N (P : N -> Prop) : forall n (l : list N), Forall P l -> Forall P (skipn n l).
+Proof. induction n as [|n IH]; intros [|a l] H; cbn [skipn]; auto. inversion H; subst. auto. Qed.
+Lemma fold_set_bit_len : forall l set, length (fold_left set_bit l set) = length set.
+Proof. induction l as [|a l IH]; intros set; cbn [fold_left]; [reflexivity|]. rewrite IH. apply set_bit_len. Qed.
+Lemma zl_cons x l : zl (x :: l) = Z.of_N x :: zl l.
+Proof. reflexivity. Qed.
